@@ -17,6 +17,7 @@ import random
 import numpy as np
 
 from harness import alpha, compare, core, gamma, lattice, shims, tlc, util
+from harness import spell
 
 INV = ["SpecNonEmpty", "SliceRefines", "NoUninit", "GridLevelOK", "Emit"]
 SENTINELS = [4.4e299, -4.4e299, float("nan")]
@@ -114,7 +115,7 @@ def run_scenario(chk, sc, cfgseed, axes, serial, fields, default_pos=False):
     before = alpha.tree_digest(d)
     try:
         with shims.pool_shim(shims.Scheduler(default="random", rng=random.Random(cfgseed))), shims.poison(SENTINELS[cfgseed % 3]), core.quiet():
-            m = Mandoline(d, fields=list(fields), limit_level=lim, serial=serial, verbose=0)
+            m = Mandoline(spell.of(d, cfgseed)[0], fields=list(fields), limit_level=lim, serial=serial, verbose=0)
             if cfgseed % 3 == 0:
                 # a HISTORY on one object: an earlier slice along another normal (at its default position); what it leaves
                 # on the object (axes, position, arrays) must not reach the slice that is judged
@@ -194,6 +195,14 @@ def klass_of(sc):
 
 
 def run(chk, replay):
+    _run(chk, replay)
+    if not replay:
+        # the working directory changes between slices of plotfiles typed under a relative name (PoolEnv.tla)
+        from harness import poolenv
+        poolenv.tool_phase(chk, "mandoline-return")
+
+
+def _run(chk, replay):
     chk.rule = ("scenarios of Mandoline.tla emitted by TLC (mesh x every lattice position x limit; a hash-selected residue class "
                 "chosen by the seed), replayed with every assignment of (normal, in-plane, extruded) axes, serial/parallel, field "
                 "lists with random / affine-along-normal / constant-along-normal fields and grid_level, poisoned numpy.empty; "
